@@ -126,6 +126,13 @@ def invariant(circ, fixed0):
         op = d["op"]
         if len(op.q_registers) == 2 and tuple(op.q_registers_type) == ("p", "p"):
             return "two-qubit-operation-between-photons", gq.op_to_letter(op)
+        if not isinstance(op, (ops.Input, ops.Output)):
+            # the operation sits on exactly the wires of the registers it names
+            want = sorted("%s%d" % (t, r) for r, t in zip(op.q_registers, op.q_registers_type))
+            ik = sorted(k for _, _, k in circ.dag.in_edges(n, keys=True) if not str(k).startswith("c"))
+            ok = sorted(k for _, _, k in circ.dag.out_edges(n, keys=True) if not str(k).startswith("c"))
+            if ik != want or ok != want:
+                return "operation-not-on-the-wires-of-its-registers", {"op": gq.op_to_letter(op), "in": ik, "out": ok}
     for r in range(circ.n_photons):
         try:
             path = wire_edges(circ, "p", r)
